@@ -576,7 +576,17 @@ func dataScript(r *prng.R, falseReturn bool, n int) []byte {
 	if n < 0 {
 		return s
 	}
-	return append(s, gen.Push(r.Bytes(n))...)
+	d := r.Bytes(n)
+	// a data carrier holds any bytes: a quarter of the payloads are raw (not a sequence of
+	// complete pushes: text, a push header announcing more than follows, a dangling PUSHDATA)
+	if n > 0 && len(d)%4 == 3 {
+		d[0] = []byte{0x4d, 0x4c, 0x4e, 'H', 0x4b}[int(d[n-1])%5]
+		if n > 2 {
+			d[1], d[2] = 0xff, 0xff
+		}
+		return append(s, d...)
+	}
+	return append(s, gen.Push(d)...)
 }
 
 // splitSats distributes total over k amounts (each <= mMaxSats as long as total is).
